@@ -154,6 +154,51 @@ fn keygen_n<const N: usize>(c: &mut Ctx) {
         if retried == 0 {
             c.inconclusive(&format!("C19: no zero window made {} draw again (retry loops not reached)", name));
         }
+        // samples that are not zero bytes but reduce to the zero scalar: q, 2q, q*256 as 512-bit integers
+        let mut patterns: Vec<(&str, Vec<u8>)> = vec![];
+        {
+            let q = crate::wire::Q_LE;
+            let mut p1 = q.to_vec();
+            p1.extend_from_slice(&[0u8; 32]);
+            let mut p2 = vec![0u8; 64];
+            let mut carry = 0u16;
+            for i in 0..32 {
+                let x = 2 * q[i] as u16 + carry;
+                p2[i] = x as u8;
+                carry = x >> 8;
+            }
+            p2[32] = carry as u8;
+            let mut p3 = vec![0u8];
+            p3.extend_from_slice(&q);
+            p3.extend_from_slice(&[0u8; 31]);
+            patterns.push(("q", p1));
+            patterns.push(("2q", p2));
+            patterns.push(("256q", p3));
+        }
+        for d in dry.draws_of_len(64) {
+            for (pn, pat) in &patterns {
+                let mut r = ScriptRng::new(seed);
+                r.inject(d, pat.clone());
+                c.eval();
+                c.distinct(&format!("{}/{}@{}", name, pn, d));
+                match guard(|| KeyPair::<N>::new(&mut r)) {
+                    Err(p) => c.violation(&format!("C19 generator-panicked type={} loc={}", name, repo_rel(&p.location)), json!({"pattern": pn, "draw": d, "panic": p.message})),
+                    Ok(kp) => {
+                        if r.consumed == 0 {
+                            continue;
+                        }
+                        match keypair_defect(&kp, &mut rng) {
+                            Ok(None) => c.count("keypairs_well_formed(multiple-of-q sample)", 1),
+                            Ok(Some(df)) => c.violation(
+                                &format!("C19 malformed-output type={} defect={}", name, df.split(" at ").next().unwrap_or("")),
+                                json!({"sample": format!("{} (reduces to the zero scalar)", pn), "draw": d, "defect": df}),
+                            ),
+                            Err(e) => c.inconclusive(&e),
+                        }
+                    }
+                }
+            }
+        }
         // uniformly random streams
         for k in 0..c.tier.pick(4, 60) {
             c.eval();
